@@ -108,10 +108,11 @@ def scan(repo):
                         imports[m][local] = ("mod", a.name)
                     elif base.split(".")[0] in mods:
                         imports[m][local] = ("func", base.split(".")[0], a.name)
-            elif isinstance(st, ast.Assign):
-                for t in st.targets:
-                    if isinstance(t, ast.Name) and SS.vkind(st.value) != "const":
-                        mutable_globals[m].add(t.id)
+            elif isinstance(st, (ast.Assign, ast.AnnAssign, ast.AugAssign)):
+                for t in (st.targets if isinstance(st, ast.Assign) else [st.target]):
+                    for e_ in ([t] if not isinstance(t, (ast.Tuple, ast.List)) else t.elts):
+                        if isinstance(e_, ast.Name):
+                            mutable_globals[m].add(e_.id)       # every module-level name (a rebound constant is state too)
 
         def reg(node, cls, prefix):
             qual = prefix + ((cls + ".") if cls else "") + node.name
@@ -197,6 +198,9 @@ def scan(repo):
             elif isinstance(n, ast.Name) and isinstance(n.ctx, ast.Load):
                 if n.id in mutable_globals[m]:
                     fn.reads.add(n.id + "[*]")
+                imp_ = imports[m].get(n.id)
+                if imp_ and imp_[0] == "func" and imp_[2] in mutable_globals.get(imp_[1], ()):
+                    fn.reads.add(imp_[2] + "[*]")           # from .util import ops: a load of `ops` reads util.ops
                 fn.calls_bare.add(("value", n.id))       # a function used as a value (table entry, callback) may be called
     scan.class_bases = class_bases
     return fns, by_method, by_modfunc, imports
